@@ -79,20 +79,98 @@ type BP struct {
 
 func (b *BP) of(tok int64) int64 { return b.m[tok] }
 
-func (c *Ctx) bindingPowers() *BP {
-	m, ok := c.evalIntMap(c.A.BindingPowers.Name())
-	if !ok {
-		lost("precedence table %s is not a constant map literal", c.A.BindingPowers.Name())
+// The precedence table is either a package-level map[tokType]int with a
+// constant literal, or a pure function/method tokType -> int (a switch); in
+// both cases it is evaluated for every token constant without running it.
+type powerSrc struct {
+	g   *ssa.Global
+	fn  *ssa.Function
+	bp  *BP
+	pos token.Pos
+}
+
+func (c *Ctx) power() *powerSrc {
+	if c.powerCache != nil {
+		return c.powerCache
 	}
-	bp := &BP{m: map[int64]int64{}}
-	for k, v := range m {
-		iv, ok := constant.Int64Val(constant.ToInt(v))
+	ps := &powerSrc{bp: &BP{m: map[int64]int64{}}}
+	if g := c.A.BindingPowers; g != nil {
+		m, ok := c.evalIntMap(g.Name())
 		if !ok {
-			lost("precedence table: non-integer power")
+			lost("precedence table %s is not a constant map literal", g.Name())
 		}
-		bp.m[k] = iv
+		for k, v := range m {
+			iv, ok := constant.Int64Val(constant.ToInt(v))
+			if !ok {
+				lost("precedence table: non-integer power")
+			}
+			ps.bp.m[k] = iv
+		}
+		ps.g, ps.pos = g, g.Pos()
+		c.powerCache = ps
+		return ps
 	}
-	return bp
+	// a pure function of the token
+	var cands []*ssa.Function
+	for _, fn := range allFuncs(c.SLib) {
+		if fn.Blocks == nil || len(fn.Params) != 1 || !types.Identical(fn.Params[0].Type(), c.A.TokT) {
+			continue
+		}
+		res := fn.Signature.Results()
+		if res.Len() != 1 || !types.Identical(res.At(0).Type(), types.Typ[types.Int]) {
+			continue
+		}
+		// it must be what parseExpression compares its parameter with
+		used := false
+		for _, call := range callsTo(c.A.ParseExpr, fn) {
+			_ = call
+			used = true
+		}
+		if used {
+			cands = append(cands, fn)
+		}
+	}
+	if len(cands) != 1 {
+		lost("precedence table not found: no map[tokType]int global and %d pure tokType->int functions used by parseExpression", len(cands))
+	}
+	fn := cands[0]
+	for _, k := range c.A.Toks {
+		f := newFolder(c)
+		f.env[fn.Params[0]] = fval{kind: 'i', i: k.Val, bits: 64}
+		st := f.run(fn.Blocks[0], 0, nil)
+		if st.kind != "return" {
+			lost("precedence function %s does not fold to a constant for %s (%s %s)", fname(fn), k.Name, st.kind, st.what)
+		}
+		v, ok := f.eval(st.instr.(*ssa.Return).Results[0])
+		if !ok || v.kind != 'i' {
+			lost("precedence function %s: result for %s is not a constant", fname(fn), k.Name)
+		}
+		if v.i != 0 {
+			ps.bp.m[k.Val] = v.i
+		}
+	}
+	ps.fn, ps.pos = fn, fn.Pos()
+	c.powerCache = ps
+	return ps
+}
+
+func (c *Ctx) bindingPowers() *BP { return c.power().bp }
+
+// powerIndex: v is "the binding power of <index>" — a lookup in the table or a
+// call of the precedence function; returns the token operand.
+func (c *Ctx) powerIndex(v ssa.Value) (ssa.Value, bool) {
+	ps := c.power()
+	switch v := v.(type) {
+	case *ssa.Lookup:
+		if ps.g != nil && isLoadOfGlobal(v.X, ps.g) {
+			return v.Index, true
+		}
+	case *ssa.Call:
+		if ps.fn != nil && staticCallee(v) == ps.fn && len(v.Call.Args) == 1 {
+			return v.Call.Args[0], true
+		}
+	}
+	return nil, false
 }
 
 // isLoadOfGlobal reports whether v is a load (*g) of the given global.
@@ -117,14 +195,15 @@ func (c *Ctx) bpEval(v ssa.Value, labels []namedConst, bp *BP) bpVal {
 		}
 	case *ssa.Parameter:
 		return bpVal{param: v, ok: true}
-	case *ssa.Lookup:
-		if !isLoadOfGlobal(v.X, c.A.BindingPowers) {
+	case *ssa.Lookup, *ssa.Call:
+		index, isPower := c.powerIndex(v)
+		if !isPower {
 			return bpVal{}
 		}
-		if k, ok := constInt(v.Index); ok {
+		if k, ok := constInt(index); ok {
 			return bpVal{vals: []int64{bp.of(k)}, ok: true}
 		}
-		if p, ok := v.Index.(*ssa.Parameter); ok && types.Identical(p.Type(), c.A.TokT) && len(labels) > 0 {
+		if p, ok := index.(*ssa.Parameter); ok && types.Identical(p.Type(), c.A.TokT) && len(labels) > 0 {
 			seen := map[int64]bool{}
 			var out []int64
 			for _, l := range labels {
@@ -223,7 +302,7 @@ func init() {
 func ruleP1(c *Ctx) *RuleResult {
 	r := &RuleResult{Doc: "precedence table order: pipe < or < and < comparators(equal) < flatten < filter < dot < not < lbracket < lparen; closers have power <= 0", Floor: 20}
 	bp := c.bindingPowers()
-	pos := c.pos(c.A.BindingPowers.Pos())
+	pos := c.pos(c.power().pos)
 	names := make([]string, 0, len(specRank))
 	for n := range specRank {
 		names = append(names, n)
@@ -272,11 +351,11 @@ func ruleP1(c *Ctx) *RuleResult {
 }
 
 // prattCompare finds the loop comparison "rbp < table[current]" of parseExpression.
-func (c *Ctx) prattCompare() (*ssa.BinOp, *ssa.Parameter, *ssa.Lookup, bool) {
+func (c *Ctx) prattCompare() (*ssa.BinOp, *ssa.Parameter, ssa.Value, bool) {
 	fn := c.A.ParseExpr
 	var found *ssa.BinOp
 	var par *ssa.Parameter
-	var lk *ssa.Lookup
+	var index ssa.Value
 	swapped := false
 	n := 0
 	for _, b := range fn.Blocks {
@@ -292,28 +371,28 @@ func (c *Ctx) prattCompare() (*ssa.BinOp, *ssa.Parameter, *ssa.Lookup, bool) {
 			}
 			px, xIsP := bo.X.(*ssa.Parameter)
 			py, yIsP := bo.Y.(*ssa.Parameter)
-			lx, xIsL := bo.X.(*ssa.Lookup)
-			ly, yIsL := bo.Y.(*ssa.Lookup)
-			if xIsP && yIsL && isLoadOfGlobal(ly.X, c.A.BindingPowers) {
-				found, par, lk, swapped = bo, px, ly, false
+			ix, xIsL := c.powerIndex(bo.X)
+			iy, yIsL := c.powerIndex(bo.Y)
+			if xIsP && yIsL {
+				found, par, index, swapped = bo, px, iy, false
 				n++
-			} else if yIsP && xIsL && isLoadOfGlobal(lx.X, c.A.BindingPowers) {
-				found, par, lk, swapped = bo, py, lx, true
+			} else if yIsP && xIsL {
+				found, par, index, swapped = bo, py, ix, true
 				n++
 			}
 		}
 	}
 	if n != 1 {
-		lost("parseExpression: expected exactly one comparison of the binding-power parameter with a table lookup, found %d", n)
+		lost("parseExpression: expected exactly one comparison of the binding-power parameter with the power of a token, found %d", n)
 	}
-	return found, par, lk, swapped
+	return found, par, index, swapped
 }
 
 // T-P2: the Pratt loop continues exactly while rbp < power(current token).
 func ruleP2(c *Ctx) *RuleResult {
 	r := &RuleResult{Doc: "Pratt loop: continue iff rbp < bindingPowers[current token]; the token dispatched to led is the one compared", Floor: 3}
 	fn := c.A.ParseExpr
-	bo, _, lk, swapped := c.prattCompare()
+	bo, _, lkIndex, swapped := c.prattCompare()
 	pos := c.pos(bo.Pos())
 	r.Instances++
 	strict := (bo.Op == token.LSS && !swapped) || (bo.Op == token.GTR && swapped)
@@ -382,7 +461,7 @@ func ruleP2(c *Ctx) *RuleResult {
 		}
 		return f(v)
 	}
-	if tokArg == lk.Index && fromCurrent(tokArg) {
+	if tokArg == lkIndex && fromCurrent(tokArg) {
 		r.ok("pratt-token", pos, fname(fn), "the token looked up in the table is the token passed to led, and is always the parser's current token")
 	} else {
 		r.viol("pratt-token", c.pos(ledCall.Pos()), fname(fn), "the token dispatched to led is not the (current) token whose power was compared")
@@ -595,15 +674,15 @@ func ruleP4(c *Ctx) *RuleResult {
 			if !ok {
 				continue
 			}
-			lk, ok := bo.X.(*ssa.Lookup)
-			if !ok || !isLoadOfGlobal(lk.X, c.A.BindingPowers) {
+			lkIndex, ok := c.powerIndex(bo.X)
+			if !ok {
 				continue
 			}
 			k, ok := constInt(bo.Y)
 			if !ok {
 				continue
 			}
-			if call, ok := lk.Index.(*ssa.Call); !ok || staticCallee(call) != c.A.Current {
+			if call, ok := lkIndex.(*ssa.Call); !ok || staticCallee(call) != c.A.Current {
 				continue
 			}
 			cmp, thr = bo, k
@@ -834,7 +913,7 @@ func ruleFuncTable(c *Ctx) *RuleResult {
 	r := &RuleResult{Doc: "the function table equals the specification's 26 signatures (names, per-position type sets, variadic tails, expression-reference positions); handlers are non-nil and not shared", Floor: 26}
 	seen := map[string]bool{}
 	handlerUse := map[*ssa.Function][]string{}
-	for _, e := range c.A.Table {
+	for _, e := range c.table() {
 		r.Instances++
 		seen[e.Key] = true
 		sp, ok := specFuncs[e.Key]
